@@ -138,6 +138,7 @@ pub fn plan_reset() {
     MPROTECT_FAIL_AT.store(0, SeqCst);
     MPROTECT_FAIL_PAGE.store(0, SeqCst);
     MPROTECT_CALLS.store(0, SeqCst);
+    clear_flush_hook();
     PAUSE_KIND.store(0, SeqCst);
     PAUSE_ORDINAL.store(0, SeqCst);
     PAUSE_MAX_US.store(0, SeqCst);
@@ -353,4 +354,30 @@ pub unsafe extern "C" fn __clear_cache(start: *mut u8, end: *mut u8) {
     let n = e.saturating_sub(s).min(64);
     let bytes = if n > 0 && crate::maps::readable(s, n) { std::slice::from_raw_parts(start, n).to_vec() } else { vec![] };
     push(Kind::Flush, s as u64, e as u64, 0, 0, bytes);
+    // one-shot hook: "the earliest moment at which another caller could meet the new code"
+    let h = FLUSH_HOOK_ADDR.load(SeqCst) as usize;
+    if h != 0 && h >= s && h < e {
+        let hook = FLUSH_HOOK.with(|c| c.borrow_mut().take());
+        if let Some(mut f) = hook {
+            FLUSH_HOOK_ADDR.store(0, SeqCst);
+            let depth = IN_SUT.with(|c| c.replace(0));
+            f();
+            IN_SUT.with(|c| c.set(depth));
+        }
+    }
+}
+
+pub static FLUSH_HOOK_ADDR: AtomicU64 = AtomicU64::new(0);
+thread_local! {
+    static FLUSH_HOOK: std::cell::RefCell<Option<Box<dyn FnMut()>>> = const { std::cell::RefCell::new(None) };
+}
+/// Run `f` (once, on this thread, outside the SUT section) when the library flushes a range that
+/// contains `addr`.  `f` must not unwind.
+pub fn set_flush_hook(addr: usize, f: Box<dyn FnMut()>) {
+    FLUSH_HOOK.with(|c| *c.borrow_mut() = Some(f));
+    FLUSH_HOOK_ADDR.store(addr as u64, SeqCst);
+}
+pub fn clear_flush_hook() {
+    FLUSH_HOOK_ADDR.store(0, SeqCst);
+    FLUSH_HOOK.with(|c| *c.borrow_mut() = None);
 }
